@@ -20,10 +20,12 @@ func C19(c *core.Ctx) {
 		"dominated by `x != nil` (left conjunct or enclosing if), every index uses the variable of the enclosing `range` over the same expression, no division/modulo by the constant zero. " +
 		"Decided for all names/limits at once. Not decided: panics inside encoding/json, yaml, mapstructure, regexp; operations on the raw map (nil-safe in Go by definition)."
 	rules := ruleSet("A-AON", "A-NILG")
-	for _, mb := range broadMembers(c.Tier, gen.DefaultConfig()) {
-		runMember(c, mb, rules, 64, func(w *fam.World, fm *fam.FileModel) []fam.Issue {
-			return fam.MethodIssues(fm)
-		})
+	for _, cfg := range tierConfigs(c.Tier) {
+		for _, mb := range broadMembers(c.Tier, cfg) {
+			runMember(c, mb, rules, 256, func(w *fam.World, fm *fam.FileModel) []fam.Issue {
+				return fam.MethodIssues(fm)
+			})
+		}
 	}
 	c.Floor("families", c.Counts["members"], 300, "family members")
 	c.Floor("methods", c.Counts["unmarshal_methods"], 600, "emitted methods analysed")
@@ -37,10 +39,28 @@ func C17(c *core.Ctx) {
 		"violation. The validators are shared code, but each emitter runs them separately on the same objects, so state leaking from the first pass into the second shows up as a difference. " +
 		"Not decided: scalar-typing differences between the two decoders themselves."
 	rules := ruleSet("A-SIB")
-	for _, mb := range broadMembers(c.Tier, gen.DefaultConfig()) {
-		runMember(c, mb, rules, 64, func(w *fam.World, fm *fam.FileModel) []fam.Issue {
-			return fam.SibIssues(fm)
-		})
+	for _, cfg := range tierConfigs(c.Tier) {
+		for _, mb := range broadMembers(c.Tier, cfg) {
+			runMember(c, mb, rules, 256, func(w *fam.World, fm *fam.FileModel) []fam.Issue {
+				return fam.SibIssues(fm)
+			})
+		}
 	}
 	c.Floor("families", c.Counts["members"], 300, "family members")
+}
+
+// tierConfigs: the default option set in the quick tier; in the thorough tier also --min-sized-ints, a json+yaml tag list
+// without mapstructure, and --struct-name-from-title.
+func tierConfigs(tier string) []gen.Config {
+	d := gen.DefaultConfig()
+	if tier != "thorough" {
+		return []gen.Config{d}
+	}
+	sized := d
+	sized.MinSizedInts = true
+	tags := d
+	tags.Tags = []string{"json", "yaml"}
+	title := d
+	title.StructNameFromTitle = true
+	return []gen.Config{d, sized, tags, title}
 }
